@@ -302,7 +302,7 @@ def h_scale(flags, nm):
     return run
 
 
-def h_history(flag_seq, nm, order):
+def h_history(flag_seq, nm, order, nd=None, extended=None):
     """order: indices into the list of sources, e.g. (0, 1, 0): fit s0, s1, s0 on ONE fitter."""
     def run(part):
         std_assumptions(part)
@@ -320,11 +320,25 @@ def h_history(flag_seq, nm, order):
                 st += [val(s.flux), val(s.error), [int(v) for v in s.valid], s.name]
             return st
 
+        extarr = None
+        if extended is not None:
+            extarr = np.zeros((nm, nd, nf), dtype=bool)
+            for (m_, d_, f_) in extended:
+                extarr[m_, d_, f_] = True
+
+        def mk_models(base):
+            if nd is None:
+                return fx.models(base.names, base.M)
+            return fx.models(base.names, base.M, distances=np.arange(1, nd + 1, dtype=float), logd=base.logd,
+                             extended=None if extarr is None else extarr.copy())
+
         def body(c):
-            base = Scenario(c, flag_seq[0], nm)
-            scs = [base] + [Scenario(c, fl, nm, tag='_%d' % i, k=base.k, grid=base.M) for i, fl in enumerate(flag_seq[1:], 1)]
+            base = Scenario(c, flag_seq[0], nm, nd)
+            scs = [base] + [Scenario(c, fl, nm, nd, tag='_%d' % i, k=base.k, grid=base.M) for i, fl in enumerate(flag_seq[1:], 1)]
+            for s_ in scs[1:]:
+                s_.logd = base.logd
             srcs = [fx.source(s.flags, s.F, s.E, name='s%d' % i) for i, s in enumerate(scs)]
-            mod = fx.models(base.names, base.M)
+            mod = mk_models(base)
             fitter, _ = make_fitter(fx, mod, StubExtinction(base.k), (base.lo, base.hi), nf)
             st0 = state(fitter, mod, srcs)
             hist = []
@@ -333,7 +347,7 @@ def h_history(flag_seq, nm, order):
             st1 = state(fitter, mod, srcs)
             fresh = []
             for i in range(len(srcs)):
-                mod2 = fx.models(base.names, base.M)
+                mod2 = mk_models(base)
                 f2, _ = make_fitter(fx, mod2, StubExtinction(base.k), (base.lo, base.hi), nf)
                 fresh.append(snapshot(f2.fit(fx.source(scs[i].flags, scs[i].F, scs[i].E, name='s%d' % i))))
             c.vars = (scs, st0, st1, hist, fresh)
@@ -390,6 +404,8 @@ def configs(tier, seed):
         cfgs.append(Config('I4 history %s order=%s' % ('/'.join(''.join(map(str, f)) for f in seq), ''.join(map(str, order))),
                            h_history(seq, 1, order), 3000))
     cfgs.append(Config('I4 history nm=2 14/44 order=010', h_history(((1, 4), (4, 4)), 2, (0, 1, 0)), 3000))
+    cfgs.append(Config('I4 history 3-D with resolved-model mask, sources 40/44 order=01', h_history(((4, 0), (4, 4)), 1, (0, 1), nd=2, extended=[(0, 0, 1)]), 3000))
+    cfgs.append(Config('I4 history 3-D with resolved-model mask, sources 44/40 order=01', h_history(((4, 4), (4, 0)), 1, (0, 1), nd=2, extended=[(0, 1, 1)]), 3000))
     return cfgs
 
 
